@@ -329,7 +329,11 @@ def run(ctx, res):
     os.environ['HOME'] = home
     try:
         for f in ['~/.lexaloffle/pico-8/carts/a.p8', '~/.lexaloffle/pico-8/carts2/a.p8', '~/.lexaloffle/pico-8/carts/sub/a.p8', '/tmp/x/a.p8',
-                  '~/Library/Application Support/pico-8/carts/a.p8', '~/AppData/Roaming/pico-8/cartsX/a.p8']:
+                  '~/Library/Application Support/pico-8/carts/a.p8', '~/AppData/Roaming/pico-8/cartsX/a.p8',
+                  # directories that differ from a carts folder in letter case, blanks or a dot component only: other directories
+                  '~/.lexaloffle/pico-8/Carts/game/a.p8', '~/.LEXALOFFLE/pico-8/carts/a.p8', '~/library/application support/pico-8/carts/x/a.p8',
+                  '~/appdata/roaming/pico-8/carts/a.p8', '~/.lexaloffle/pico-8/carts /a.p8', '~/.lexaloffle/PICO-8/carts/sub/a.p8',
+                  '~/.lexaloffle/pico-8/cart/s/a.p8', '~/AppData/Roaming/pico-8/carts/deep/er/a.p8']:
             af = os.path.expanduser(f)
             lines.append('rootfor %s %s' % (I.hp(home), I.hp(af)))
             expect.append('ok ' + I.hp(p8.get_root_include_path(af)))
